@@ -13,6 +13,7 @@ from pyvc import models, task as T
 from pyvc.values import Raised, SBool, SInt, SObj, SStr, Unsupported, concretize, is_sym, lift_str, payload
 
 _HASH = {}
+_PROCESS = [1]      # hash(str) is a different function in every process (PYTHONHASHSEED): the UF is indexed by it
 
 
 def _m_hash(I, v):
@@ -22,9 +23,10 @@ def _m_hash(I, v):
         v = SStr([ord(c) for c in v])
     s = lift_str(v)
     n = len(s)
-    if n not in _HASH:
-        _HASH[n] = z3.Function(f"HashStr{n}", *([z3.IntSort()] * n), z3.IntSort()) if n else None
-    return SInt(_HASH[n](*s.chars)) if n else SInt(z3.Int("hash_of_empty"))
+    key = (n, _PROCESS[0])
+    if key not in _HASH:
+        _HASH[key] = z3.Function(f"HashStr{n}_process{_PROCESS[0]}", *([z3.IntSort()] * n), z3.IntSort()) if n else None
+    return SInt(_HASH[key](*s.chars)) if n else SInt(z3.Int(f"hash_of_empty_process{_PROCESS[0]}"))
 
 
 models.BUILTIN_MODELS[hash] = _m_hash
@@ -58,8 +60,10 @@ class CompareTask(T.Task):
     def setup(self, I):
         a = [z3.Int(f"a{i}") for i in range(self.n)]
         b = [z3.Int(f"b{i}") for i in range(self.m)]
-        for x in a + b:
+        for x in a + (b if self.cb != "str" else []):
             I.assumptions += [CC.Fix(x), CC.fix_facts(x)]
+        for x in (b if self.cb == "str" else []):
+            I.assumptions.append(z3.And(x >= 0, x <= 0x10FFFF))      # a plain string: ANY text, not only clean ones
         return {"a": SStr(a), "b": SStr(b)}
 
     def code(self, I, inp):
@@ -100,6 +104,11 @@ class CompareTask(T.Task):
         al = "AB01"
         a = "".join(rnd.choice(al) for _ in range(self.n))
         b = a if rnd.random() < 0.4 and self.n == self.m else "".join(rnd.choice(al) for _ in range(self.m))
+        if self.cb == "str" and rnd.random() < 0.6 and self.m:
+            # plain strings need not be compact: lower case, blanks
+            core = a[: max(0, self.m - 1)]
+            b = (core.lower() if rnd.random() < 0.5 else core) + rnd.choice([" ", "a", "\t", "b"])
+            b = b[: self.m].ljust(self.m)
         return {"a": a, "b": b}
 
 
@@ -113,6 +122,8 @@ class ReconstructTask(T.Task):
     def __init__(self, cls_name, op, n):
         self.cls_name, self.op, self.n = cls_name, op, int(n)
         self.name = f"{op}({cls_name} of length {n})"
+        if op == "pickle-other-process":
+            self.crosscheck_samples = 1       # two fresh subprocesses per sample
         from props.ibantasks import national_contract
         self.contracts = {"schwifty.common.clean": CC.clean_contract,
                           "schwifty.checksum.numerify": CC.make_numerify_contract(0),
@@ -128,8 +139,21 @@ class ReconstructTask(T.Task):
         import schwifty
         cls = getattr(schwifty, self.cls_name)
         x = make(I, self.cls_name, inp["a"].chars)
+        _PROCESS[0] = 1
         if self.op == "deepcopy":
             r = models.m_deepcopy(I, x)
+        elif self.op == "pickle-other-process":
+            # the object is hashed, pickled, and loaded in ANOTHER process (different hash seed): the state travels,
+            # the hash function does not
+            I.call(I.getattr(x, "__hash__"), [], {})
+            r = models.reconstruct(I, x)
+            _PROCESS[0] = 2
+            try:
+                hr = I.call(I.getattr(r, "__hash__"), [], {})
+                want = _m_hash(I, payload(r))
+            finally:
+                _PROCESS[0] = 1
+            return ("COPY", r, hr, want)
         else:
             r = models.reconstruct(I, x)      # copy.copy and pickle: the reduce protocol
         return ("COPY", r)
@@ -148,9 +172,14 @@ class ReconstructTask(T.Task):
             if same_cls:
                 out.append((f"path {i}: the copy has the same text", path["pc"],
                             T.as_formula(T.obs_eq(I, payload(r), inp["a"]))))
+            if len(o) == 4:
+                out.append((f"path {i}: in the loading process hash(copy) == hash(str(copy))", path["pc"],
+                            T.as_formula(T.obs_eq(I, o[2], o[3]))))
         return out
 
     def native_agree(self, inp):
+        if self.op == "pickle-other-process":
+            return cross_process_pickle(self.cls_name, inp["a"])
         x = make_native(self.cls_name, inp["a"])
         try:
             if self.op == "copy":
@@ -174,6 +203,37 @@ class ReconstructTask(T.Task):
                 "BIC": ["GENODEM1GLS", "DEUTDEFF", "FOO", ""], "BBAN": ["370400440532013000", "12", ""]}[self.cls_name]
         c = [p for p in pool if len(p) == self.n]
         return {"a": rnd.choice(c)} if c else {"a": "".join(rnd.choice("AB01") for _ in range(self.n))}
+
+
+XPROC = r'''
+import sys, pickle, base64
+import schwifty
+cls = getattr(schwifty, sys.argv[2])
+if sys.argv[1] == "dump":
+    x = cls("DE", sys.argv[3]) if sys.argv[2] == "BBAN" else cls(sys.argv[3], allow_invalid=True)
+    hash(x); {x: 1}
+    print(base64.b64encode(pickle.dumps(x)).decode())
+else:
+    y = pickle.loads(base64.b64decode(sys.argv[3]))
+    print(int(hash(y) == hash(str(y)) and {str(y): 1}.get(y) == 1 and y in {str(y)}))
+'''
+
+
+def cross_process_pickle(cls_name, text):
+    import os
+    import subprocess
+    import sys
+    import schwifty
+    root = os.path.dirname(os.path.dirname(schwifty.__file__))
+    env = dict(os.environ, PYTHONPATH=root + os.pathsep + os.environ.get("PYTHONPATH", ""))
+    a = subprocess.run([sys.executable, "-c", XPROC, "dump", cls_name, text], capture_output=True, text=True,
+                       env=dict(env, PYTHONHASHSEED="1"), timeout=120)
+    if a.returncode != 0:
+        return False, f"dump failed: {a.stderr[-200:]}", "an equal, equally hashed object"
+    b = subprocess.run([sys.executable, "-c", XPROC, "load", cls_name, a.stdout.strip()], capture_output=True, text=True,
+                       env=dict(env, PYTHONHASHSEED="2"), timeout=120)
+    ok = b.returncode == 0 and b.stdout.strip() == "1"
+    return ok, f"loaded in a process with another hash seed: hash agrees = {b.stdout.strip() or b.stderr[-200:]}", "hash(y) == hash(str(y))"
 
 
 def static_obligations():
@@ -216,7 +276,7 @@ def main(seed, tier):
             specs.append(("props.c16", "CompareTask", (ca, cb, n, m)))
     lengths = {"IBAN": [0, 3, 4, 22], "BIC": [0, 5, 8, 11], "BBAN": [0, 2, 18]}
     for cls in CLASSES:
-        for op in ("copy", "deepcopy", "pickle2"):
+        for op in ("copy", "deepcopy", "pickle2", "pickle-other-process"):
             for n in lengths[cls]:
                 specs.append(("props.c16", "ReconstructTask", (cls, op, n)))
     results = common.run_tasks(specs, seed, tier)
